@@ -140,6 +140,9 @@ func init() {
 			if w.Batch == 2 || (w.Thorough() && w.Batch%8 == 2) {
 				c10Trusted(w)
 			}
+			if w.Batch == 3 || (w.Thorough() && w.Batch%8 == 3) {
+				c10HeaviestTip(w)
+			}
 		},
 	})
 }
